@@ -182,6 +182,12 @@ CASES = [
     ("m-c04-312-range-ends", "C04", "fire", "xdis/bytecode.py", "            if opc.version_tuple >= (3, 13):\n                # From 3.13 on dis also labels the two ends of the protected range.\n                labels.append(start)\n                labels.append(end)\n\n    # label_maps", "            if opc.version_tuple >= (3, 12):\n                labels.append(start)\n                labels.append(end)\n\n    # label_maps", "exception-entry-components"),
     ("m-c13-py2-freevars-generic", "C13", "fire", "xdis/marsh.py", "        for names in (x.co_freevars, x.co_cellvars):\n            self._write(TYPE_TUPLE)\n            self.w_long(len(names))\n            for name in names:\n                self.dump_string(name)\n", "        self.dump(x.co_freevars)\n        self.dump(x.co_cellvars)\n", "py2-identifier-fields"),
     ("m-c17-positions-per-entry", "C17", "fire", "xdis/codetype/code311.py", "            for _ in range(length):\n                yield (start_line, end_line, start_col, end_col)", "            yield (start_line, end_line, start_col, end_col)", "one-tuple-per-code-unit"),
+    ("m-c19-310-chunk-mismatch", "C19", "fire", "xdis/codetype/code310.py", "                co_linetable += bytearray([0, 127])\n                line_diff -= 127", "                co_linetable += bytearray([0, 127])\n                line_diff -= 128", "conservation:line"),
+    ("m-c19-310-length-mismatch", "C19", "fire", "xdis/codetype/code310.py", "                co_linetable += bytearray([254, line_diff & 0xFF])\n                length -= 254\n                line_diff = 0", "                co_linetable += bytearray([254, line_diff & 0xFF])\n                length -= 255\n                line_diff = 0", "conservation:address"),
+    ("m-c19-310-delta-repeated", "C19", "fire", "xdis/codetype/code310.py", "                length -= 254\n                line_diff = 0\n            co_linetable += bytearray([length, line_diff & 0xFF])", "                length -= 254\n            co_linetable += bytearray([length, line_diff & 0xFF])", "conservation:line"),
+    ("m-c19-310-reserved-minus128", "C19", "fire", "xdis/codetype/code310.py", "            while line_diff < -127:\n                co_linetable += bytearray([0, 0x81])\n                line_diff += 127", "            while line_diff < -128:\n                co_linetable += bytearray([0, 0x81])\n                line_diff += 127", "conservation:line:final pair"),
+    ("m-c19-310-lnotab-pairing", "C19", "fire", "xdis/codetype/code310.py", "        for (offset, line_number), (end, _) in zip(entries, ends):\n            length = end - offset", "        for (end, _), (offset, line_number) in zip([(0, None)] + entries, entries):\n            length = offset - end", ""),
+    ("s-c19-310-chunk-100", "C19", "silent", "xdis/codetype/code310.py", "            while length > 254:\n                co_linetable += bytearray([254, line_diff & 0xFF])\n                length -= 254\n                line_diff = 0", "            while length > 254:\n                co_linetable += bytearray([100, line_diff & 0xFF])\n                length -= 100\n                line_diff = 0", ""),
     # ---------------- whole-package reformat, one case per property
     ("s-c01-reformat", "C01", "silent", "*REFORMAT*", "", "", ""),
     ("s-c02-reformat", "C02", "silent", "*REFORMAT*", "", "", ""),
